@@ -68,7 +68,7 @@ func firstLine(s string) string {
 // poolFloor: a run in which the pool hooks never fired cannot vouch for
 // anything that depends on them.
 func poolFloor(m *core.Merged) []string {
-	if m.Counts["pool.acquire.decodeState"] == 0 || m.Counts["pool.release.encodeState"] == 0 {
+	if m.Counts["pool.acquire.decodeState"] == 0 || m.Counts["pool.release.scanner"] == 0 {
 		return []string{"pool hooks never fired (library built without the verif tag?)"}
 	}
 	if m.Modes["poison"] > 0 && m.Counts["pool.poisoned"] == 0 {
